@@ -291,7 +291,8 @@ func getAvailableFieldsForValue(v cue.Value, blockedRootFields []string) (fields
 	}
 
 	for it.Next() {
-		fldName := it.Selector().String()
+		sel := it.Selector()
+		fldName := sel.String()
 
 		switch fldName {
 		case string(BP_Dependencies):
@@ -299,14 +300,13 @@ func getAvailableFieldsForValue(v cue.Value, blockedRootFields []string) (fields
 		}
 
 		// the selector of an optional or required field ends in ? or !, and that of a quoted field is
-		// quoted: the bare name is what a query addresses and what the blocked list holds
-		fldName = strings.TrimSuffix(fldName, "?")
-		fldName = strings.TrimSuffix(fldName, "!")
-
-		// Strip leading and trailing quotation marks from names:
-		if strings.HasPrefix(fldName, `"`) && strings.HasSuffix(fldName, `"`) {
-			fldName = strings.TrimPrefix(fldName, `"`)
-			fldName = strings.TrimSuffix(fldName, `"`)
+		// quoted and escaped (a \ is written \\): the bare name is what a query addresses and what the
+		// blocked list holds
+		if sel.LabelType() == cue.StringLabel && sel.ConstraintType() < cue.PatternConstraint {
+			fldName = sel.Unquoted()
+		} else {
+			fldName = strings.TrimSuffix(fldName, "?")
+			fldName = strings.TrimSuffix(fldName, "!")
 		}
 
 		if checkIfValueInList(fldName, blockedRootFields) {
